@@ -918,9 +918,18 @@ func (e *fnEnc) enterLoop(li *loopInfo, entry *state) *state {
 			head.heap[k] = nh
 			// implicit frame: cells allocated before function entry and outside `modifies`
 			// are unchanged. Justified by the frame obligation on every store.
-			if e.fc != nil && e.fc.ModNone {
+			if e.fc != nil && e.fc.ModSet && !e.fc.ModAll {
 				e.hasQuant = true
-				e.emit(fmt.Sprintf("(assert (forall ((a Ref)) (! (=> (< (rootn a) %s) (= (select %s a) (select %s a))) :pattern ((select %s a)))))", e.entry.next, nh, e.heap(e.entry, k, cell), nh))
+				outside := "true"
+				if !e.fc.ModNone {
+					menv := e.contractEnv(e.entry, e.entry, nil)
+					var ins []string
+					for _, m := range e.fc.Modifies {
+						ins = append(ins, menv.inModifies(m, "a"))
+					}
+					outside = not(or(ins...))
+				}
+				e.emit(fmt.Sprintf("(assert (forall ((a Ref)) (! (=> (and (< (rootn a) %s) %s) (= (select %s a) (select %s a))) :pattern ((select %s a)))))", e.entry.next, outside, nh, e.heap(e.entry, k, cell), nh))
 			}
 			_ = old
 		}
